@@ -137,22 +137,21 @@ example : PlainRoles (fun k p => p == "*" || k == p) [.add "*" "g1", .has "x" "g
 example : ((run (start 10 (fun k p => p == "*" || k == p)) [.has "x" "g1", .add "*" "g1", .add "g1" "g2"]).hasLink "x" "g2").2 = true := by
   decide
 
-/-- **domain_pattern_iff.** `DomainManager` with a domain matching function `dm` (reflexive, as `key_match`
-    is) and any transitive name matching function: after ANY history of adds, deletes, queries and clears,
+/-- **domain_pattern_iff.** `DomainManager` with ANY domain matching function `dm` (not even reflexivity is
+    needed after the repair F36) and any transitive name matching function: after ANY history of adds, deletes, queries and clears,
     `has_link(u, r, d)` ⇔ bounded reachability over the effective edges of the assignments recorded for `d`
     itself or for a domain pattern `d'` that `d` matches (`dm d d'`) — an assignment recorded for a domain
     pattern applies in exactly the domains that match it, cached or not — and the records in force are those
     the history says (in particular a delete removes exactly its own record: a grant also recorded for
     another matching domain stays). -/
-theorem domain_pattern_iff (L : Nat) (mf dm : MatchFn) (ht : Trans mf) (hr : ∀ d, dm d d = true)
+theorem domain_pattern_iff (L : Nat) (mf dm : MatchFn) (ht : Trans mf)
     (ops : List DOp) (hops : DPlainRoles mf ops) (u r d : Name) (s : DM)
     (hs : s = drun (dinit L mf (some dm)) ops) :
     ((s.hasLink u r d).2 = true ↔
       ∃ n, n < L ∧ PathR (fun x y => ∃ a d', (d' = d ∨ dm d d' = true) ∧ s.recorded d' (a, y) ∧
                                             (x = a ∨ mf x a = true)) u r n) ∧
     (∀ d' l, s.recorded d' l ↔ dforce (fun _ _ => False) ops d' l) := by
-  obtain ⟨h1, h2, h3, h4, h5, _⟩ := drun_inv (dinit_inv L mf (some dm) ht (by
-    intro dm' he; simp only [Option.some.injEq] at he; subst he; exact hr)) ops hops
+  obtain ⟨h1, h2, h3, h4, h5, _⟩ := drun_inv (dinit_inv L mf (some dm) ht) ops hops
   rw [← hs] at h1 h2 h3 h4 h5
   have h2' : s.dmatchFn = some dm := h2
   have h3' : s.matchFn = mf := h3
